@@ -234,8 +234,8 @@ func NTTSparseAndMontgomery(r *ring.Ring, metadata *MetaData, pol ring.Poly) {
 			} else {
 				for j := n - 1; j >= 0; j-- {
 					coeffs[j*gap] = coeffs[j]
-					for j := 1; j < gap; j++ {
-						coeffs[j*gap-j] = 0
+					for w := 1; w < gap; w++ {
+						coeffs[j*gap+w] = 0
 					}
 				}
 			}
